@@ -48,6 +48,7 @@ WORKERS = min(16, os.cpu_count() or 4)
 # table -> (kind, database, primary key columns)
 TABLES = {"tokens": ("token", "id", (0, 1, 3)), "metadata": ("metadata", "id", (0, 1)),
           "attestations": ("attestation", "id", (0, 2)), "att": ("blob", "att", (0,))}
+TABLES_DB = {kind: db for kind, db, _pk in TABLES.values()}
 PROPERTY_INVARIANTS = {
     "AckedDurable": "a record whose insert call had returned is not in the durable image",
     "NoPartialRecord": "a record that was never inserted is visible",
@@ -59,6 +60,12 @@ PROPERTY_INVARIANTS = {
     "ObsNoPartial": "a row read back is not byte-identical to an inserted record (or is duplicated / misplaced)",
     "ObsVerifies": "the pseudonym / wallet rebuilt by the real reload path does not verify",
     "TraceAccepted": "the logged statements are not a behaviour of the sqlite layer of CrashDb.tla",
+    "RebuiltHasAcked": "the pseudonym rebuilt by the reload lacks a record whose insert call had returned",
+    "RebuiltVerifies": "the pseudonym rebuilt by the reload is not connected back to the genesis",
+    "ObsRebuiltMatches": "the token tree / credentials / attestations that PseudonymManager.__init__ rebuilt from the "
+                         "file differ from the stored records",
+    "ObsRebuiltWhole": "an object of the rebuilt pseudonym is not an inserted record (or is duplicated / does not "
+                       "pass the real verify)",
 }
 
 
@@ -90,15 +97,21 @@ class Material:
             self.blobs.append({"hash": att.get_hash().hex(), "attestation": ser.hex(),
                                "private": att.serialize_private(sk.public_key()).hex()})
 
-    def plan(self, items):
+    def fill(self, items):
         out = []
         for it in items:
             it = dict(it)
             if it["op"] == "blob":
                 b = self.blobs[it["n"]]
                 it["hash"], it["attestation"] = b["hash"], b["attestation"]
+            elif it["op"] == "batch":
+                it["items"] = self.fill(it["items"])
             out.append(it)
-        return {"owner": self.owner, "authorities": self.authorities, "boneh_key": self.boneh_key, "items": out}
+        return out
+
+    def plan(self, items):
+        return {"owner": self.owner, "authorities": self.authorities, "boneh_key": self.boneh_key,
+                "items": self.fill(items)}
 
 
 def cred(name, after=None):
@@ -109,8 +122,14 @@ def attest(name, auth=0):
     return {"op": "attest", "cred": name, "auth": auth}
 
 
-def blob(n):
-    return {"op": "blob", "n": n}
+def blob(n, again=False):
+    return {"op": "blob", "n": n, "again": again}
+
+
+def batch(dbs, items, end):
+    """The items run inside 'with database:' blocks of the databases dbs (entered in that order), which are left
+    normally ("ok"), by raise IgnoreCommits ("ignore") or by an application error that is caught outside ("error")."""
+    return {"op": "batch", "dbs": list(dbs), "items": list(items), "end": end}
 
 
 SCRIPTED = {
@@ -118,7 +137,32 @@ SCRIPTED = {
     "all-kinds": [cred("c0"), attest("c0", 0), blob(0), cred("c1", "c0")],
     # a fork in the token tree, attestation after further tokens
     "fork": [cred("c0"), cred("c1", "c0"), cred("c2", "c0"), attest("c1", 1), blob(1)],
+    # history of the commit gate, then ordinary inserts: a block over both databases left normally, a block left by
+    # IgnoreCommits, a block left by an application error, an insert that raises - each followed by plain inserts
+    "batches": [batch(("id", "att"), [cred("b0"), blob(0)], "ok"),
+                batch(("id",), [cred("b1", "b0")], "ignore"),
+                cred("b2", "b0"),
+                batch(("att", "id"), [cred("b3", "b2"), blob(1)], "error"),
+                blob(0, again=True),
+                cred("b4", "b2"), attest("b4", 2), blob(2)],
+    # the same endings in another order and the blocks on one database only
+    "batches-2": [cred("b0"), batch(("id",), [cred("b1", "b0"), attest("b0", 0)], "error"), attest("b1", 1),
+                  batch(("att",), [blob(0), blob(1)], "error"), blob(2),
+                  batch(("att", "id"), [blob(3), cred("b2", "b1")], "ignore"), cred("b3", "b2"), blob(4),
+                  batch(("id", "att"), [cred("b4", "b3"), blob(5)], "ok")],
 }
+LONG_CHAIN = 150   # stored tokens in one chain, more than any bounded waiting room of the token tree (100)
+
+
+def long_history(n, tail=True):
+    """A pseudonym with a long stored history (a chain of n credentials with some side branches and attestations)
+    written by a first process; the restarted processes have to rebuild it."""
+    items = [cred("h0")]
+    for i in range(1, n):
+        items.append(cred("h%d" % i, "h%d" % (i - 1)))
+    if tail:
+        items += [cred("s0", "h%d" % (n // 2)), attest("h%d" % (n - 1), 0), cred("t0", "h%d" % (n - 1)), attest("t0", 1)]
+    return items
 
 
 def generated_items(rng, n):
@@ -199,8 +243,9 @@ def run_scenario(base, sc):
                 info["open_error"] = True
                 break
             elif p.returncode == 0:
-                ex = [e for e in read_log(logp) if e["e"] == "exit"]
+                ex = [e for e in read_log(logp) if e["e"] in ("exit", "close_error")]
                 info["points"].append(ex[-1]["points"])
+                info.setdefault("distinct", []).append(ex[-1].get("distinct"))
                 if ph["kill"] is not None:
                     info["beyond_end"] = True   # the process finished before reaching crash point k
             else:
@@ -288,13 +333,19 @@ def build_trace(log, sc, legacy_row):
             alive, call, ins, item = True, None, None, None
             events.append({"a": "Start"})
         elif k == "item":
-            item = items[e["i"]]
+            item = items[e["i"]] if "j" not in e else items[e["i"]]["items"][e["j"]]
         elif k in ("item_done", "item_skip", "item_abort"):
             item = None
         elif k == "call":
             call = {"bind": e.get("bind"), "emitted": []}
         elif k == "ret":
             call = None
+            if e.get("fn") == "commit" and e.get("done") is False:
+                events.append({"a": "Deferred", "d": e["db"]})   # Database.commit() did not commit
+        elif k == "enter":
+            events.append({"a": "Enter", "d": e["db"]})
+        elif k == "leave":
+            events.append({"a": "Leave", "d": e["db"], "how": e["how"]})
         elif k == "raise":
             if call and call["emitted"]:
                 del events[call["emitted"][-1]]   # the statement that raised took no effect
@@ -307,6 +358,7 @@ def build_trace(log, sc, legacy_row):
                 events.append({"a": "Return", "r": r})
             ins = None
         elif k == "ins_raise":
+            events[ins["call_ev"]]["r"] = 0    # the call stored nothing
             ins = None
         elif k == "sql":
             name = classify(e["s"])
@@ -349,6 +401,10 @@ def build_trace(log, sc, legacy_row):
         elif k == "exit":
             events.append({"a": "Exit"})
             alive = False
+        elif k == "close_error":
+            # close() raised and the process ended without it: the connections are dropped as by a kill
+            events.append({"a": "Crash"})
+            alive = False
         elif k == "open_error":
             lastdb = [ev["d"] for ev in events if ev["a"] == "ReadVersion"]
             events.append({"a": "OpenError", "exc": e["exc"], "msg": e["msg"], "d": lastdb[-1] if lastdb else "id"})
@@ -360,6 +416,11 @@ def build_trace(log, sc, legacy_row):
                 _kind, db, pk = TABLES[tl]
                 for row in rows:
                     ev[db].append({"r": index.get((tl, digest([row[i] for i in pk])), 0), "dig": digest(row)})
+            # what PseudonymManager.__init__ made of the file
+            for field, tl in (("tree", "tokens"), ("creds", "metadata"), ("atts", "attestations")):
+                pk = TABLES[tl][2]
+                ev[field] = [{"r": index.get((tl, digest([x["row"][i] for i in pk])), 0), "dig": digest(x["row"]),
+                              "ok": bool(x["ok"])} for x in e.get("rebuilt", {}).get(field, [])]
             events.append(ev)
         else:
             raise MachineryError("C19: unknown log event %r" % k)
@@ -482,8 +543,12 @@ def strict_conformance(ctx, traces, tag):
 
 
 # ---------------------------------------------------------------------------------------------------
-SPEC_CONTROLS = (("spec with the pinned version read (missing row raises) violates ReopenOk",
-                  "CrashDb_pinned_version.cfg", "ReopenOk"),
+SPEC_CONTROLS = (("spec with the pinned version read (missing row raises; schema script not in one transaction) "
+                  "violates ReopenOk", "CrashDb_pinned_version.cfg", "ReopenOk"),
+                 ("spec whose __exit__ leaves the commits deferred after an exception violates AckedDurable",
+                  "CrashDb_gate_stuck.cfg", "AckedDurable"),
+                 ("spec whose reload chains the rows through a bounded waiting room violates RebuiltHasAcked",
+                  "CrashDb_reload_wait.cfg", "RebuiltHasAcked"),
                  ("spec with the pinned non-atomic schema upgrade violates ReopenOk",
                   "CrashDb_pinned_upgrade.cfg", "ReopenOk"),
                  ("spec whose insert returns before the commit violates AckedDurable",
@@ -492,8 +557,10 @@ SPEC_CONTROLS = (("spec with the pinned version read (missing row raises) violat
 
 def start_model_check(tlcpool, tier):
     """TLC on the specification itself runs in the background while the child processes are enumerated."""
-    cfgs = [("mc", "CrashDb_mc.cfg"), ("legacy", "CrashDb_legacy.cfg")] if tier == "quick" else \
-           [("mc4", "CrashDb_mc4.cfg"), ("legacy4", "CrashDb_legacy4.cfg"), ("mc-3crashes", "CrashDb_mc_r4.cfg")]
+    cfgs = [("mc", "CrashDb_mc.cfg"), ("legacy", "CrashDb_legacy.cfg"), ("batch", "CrashDb_batch.cfg")] \
+        if tier == "quick" else \
+           [("mc4", "CrashDb_mc4.cfg"), ("legacy4", "CrashDb_legacy4.cfg"), ("mc-3crashes", "CrashDb_mc_r4.cfg"),
+            ("batch", "CrashDb_batch4.cfg")]
     jobs = [(tag, cfg, None, tlcpool.submit(run_tlc, "CrashDb.tla", cfg, timeout=3000)) for tag, cfg in cfgs]
     jobs += [(name, cfg, inv, tlcpool.submit(run_tlc, "CrashDb.tla", cfg, coverage=False, workers=4))
              for name, cfg, inv in SPEC_CONTROLS]
@@ -513,18 +580,39 @@ def finish_model_check(ctx, jobs):
         for a, (_d, t) in r.coverage.items():
             union[a] = union.get(a, 0) + t
     never = sorted(a for a, n in union.items() if n == 0 and a.startswith("P"))
-    if never or len([a for a in union if a.startswith("P")]) < 18:
+    if never or len([a for a in union if a.startswith("P")]) < 21:
         raise MachineryError("CrashDb: vacuous model checking, actions never taken: %s (seen %d)" % (never, len(union)))
 
 
-def enumerate_single(pool, base, sc_base):
-    """Run the workload once to completion, then once per crash point k of that run."""
+def first_item_point(log, nprefix):
+    """Crash point counter of the killed phase (the one after nprefix earlier processes) when its first item starts."""
+    starts = 0
+    for e in log:
+        if e["e"] == "start":
+            starts += 1
+        elif e["e"] == "item" and starts == nprefix + 1:
+            return e.get("n", 0)
+    return 0
+
+
+def enumerate_single(pool, base, sc_base, from_item=False, sample=None, rng=None):
+    """Run the workload once to completion, then once per crash point k of that run (from_item: only the points from
+    the first item of the killed process on - the points of open() are enumerated by the other workloads; sample: at
+    most that many of them, drawn with rng; a kill at a point that is left out leaves the same files and the same
+    acknowledgements as the kill at the enumerated point before it)."""
     log, legacy_row, info = run_scenario(base, dict(sc_base, phases=sc_base["prefix"] + [{"items": None, "kill": None}]))
     full = build_trace(log, dict(sc_base, phases=sc_base["prefix"] + [{"items": None, "kill": None}]), legacy_row)
-    if info["open_error"]:
+    if info["open_error"] or len(info["points"]) <= len(sc_base["prefix"]):
         return [full], 0
     n = info["points"][len(sc_base["prefix"])]
-    scs = [dict(sc_base, phases=sc_base["prefix"] + [{"items": None, "kill": k}]) for k in range(1, n + 1)]
+    ks = list(range(1, n + 1))
+    if from_item:
+        # only the points that differ from the point before them (see c19_child.py), from the first item on
+        first = first_item_point(log, len(sc_base["prefix"]))
+        ks = [k for k in info["distinct"][len(sc_base["prefix"])] if k > first]
+    if sample is not None and len(ks) > sample:
+        ks = sorted(rng.sample(ks, sample))
+    scs = [dict(sc_base, phases=sc_base["prefix"] + [{"items": None, "kill": k}]) for k in ks]
     results = list(pool.map(lambda s: (s, run_scenario(base, s)), scs))
     traces = [full]
     for s, (lg, lrow, inf) in results:
@@ -532,7 +620,7 @@ def enumerate_single(pool, base, sc_base):
             raise MachineryError("C19: crash point %s not reached although the full run has %d points" % (
                 s["phases"][-1]["kill"], n))
         traces.append(build_trace(lg, s, lrow))
-    return traces, n
+    return traces, len(ks)
 
 
 def corrupt(traces, how):
@@ -545,6 +633,20 @@ def corrupt(traces, how):
             for i, e in enumerate(evs):
                 if e["a"] == "Return" and i >= 1 and evs[i - 1]["a"] == "Commit":
                     return [dict(t, events=evs[:i - 1] + evs[i:])]
+        elif how == "drop-block-commit":
+            # a "with database:" block is left normally without the commit its inserts were waiting for
+            for i, e in enumerate(evs):
+                if e["a"] == "Leave" and e["how"] == "ok" and i >= 1 and evs[i - 1] == {"a": "Commit", "d": e["d"]}:
+                    return [dict(t, events=evs[:i - 1] + evs[i:])]
+        elif how == "ack-in-aborted-block":
+            # the records of a block that was left by an exception are claimed to be acknowledged: the model must
+            # NOT have acknowledged them (they are not durable), i.e. the claim is caught by AckedDurable
+            for i, e in enumerate(evs):
+                if e["a"] == "Leave" and e["how"] == "error":
+                    start = max(j for j in range(i) if evs[j] == {"a": "Enter", "d": e["d"]})
+                    if any(x["a"] == "Return" and TABLES_DB[t["recs"][x["r"] - 1]["kind"]] == e["d"]
+                           for x in evs[start:i]):
+                        return [dict(t, events=evs[:i] + [dict(e, how="ok")] + evs[i + 1:])]
         elif obs:
             i = obs[-1]
             o = json.loads(json.dumps(evs[i]))
@@ -561,15 +663,30 @@ def corrupt(traces, how):
             elif how == "unverifiable" and o["id"]:
                 o["verifies"] = False
                 return [dict(t, events=evs[:i] + [o] + evs[i + 1:])]
+            elif how == "tree-hole" and len(o["tree"]) >= 2:
+                # the reload lost a stored token
+                del o["tree"][0]
+                return [dict(t, events=evs[:i] + [o] + evs[i + 1:])]
+            elif how == "tree-unverified" and o["tree"]:
+                # a token of the rebuilt tree does not pass TokenTree.verify
+                o["tree"][-1]["ok"] = False
+                return [dict(t, events=evs[:i] + [o] + evs[i + 1:])]
+            elif how == "credential-lost" and o["creds"] and any(
+                    t["recs"][x["r"] - 1]["kind"] == "metadata" for x in o["id"] if x["r"] in acked):
+                o["creds"] = [x for x in o["creds"] if x["r"] not in acked]
+                return [dict(t, events=evs[:i] + [o] + evs[i + 1:])]
     raise MachineryError("C19: no recorded trace is suitable for the control %r" % how)
 
 
 TRACE_CONTROLS = (("drop-commit", "AckedDurable"), ("lose-acked-row", "ObsMatchesDurable"),
-                  ("torn-row", "ObsNoPartial"), ("unverifiable", "ObsVerifies"))
+                  ("torn-row", "ObsNoPartial"), ("unverifiable", "ObsVerifies"),
+                  ("drop-block-commit", "AckedDurable"), ("ack-in-aborted-block", "AckedDurable"),
+                  ("tree-hole", "ObsRebuiltMatches"), ("tree-unverified", "ObsRebuiltWhole"),
+                  ("credential-lost", "ObsRebuiltMatches"))
 
 
 def trace_controls(good):
-    """Four hand-made bad traces in ONE TLC run (-continue): each must be rejected by the invariant it breaks.
+    """Hand-made bad traces in ONE TLC run (-continue): each must be rejected by the invariant it breaks.
     (Built from recorded traces, so only meaningful - and only enforced - when the recorded traces are accepted.)"""
     try:
         bad = [corrupt(good, how)[0] for how, _ in TRACE_CONTROLS]
@@ -622,6 +739,7 @@ def run(tier, seed, replay=None):
                 with open(replay, encoding="utf-8") as f:
                     rp = json.load(f)["replay"]
                 src = dict(SCRIPTED)
+                src["long-history"] = long_history(LONG_CHAIN)
                 name = rp["scenario"]
                 key = name.replace("legacy:", "").replace("second-run:", "")
                 if key.startswith("generated-"):
@@ -632,28 +750,44 @@ def run(tier, seed, replay=None):
                 batches = {"replay": [build_trace(log, sc, lrow)]}
             else:
                 batches = {}
-                plans = [("all-kinds", SCRIPTED["all-kinds"], False, ()),
+                quick = tier == "quick"
+                # (name, items, legacy, prefix, options of enumerate_single)
+                plans = [("all-kinds", SCRIPTED["all-kinds"], False, (), {}),
                          # the same workload on files written by a release with schema version 1
-                         ("legacy:all-kinds", SCRIPTED["all-kinds"], True, ())]
+                         ("legacy:all-kinds", SCRIPTED["all-kinds"], True, (), {}),
+                         # "with database:" blocks left in every way, each followed by ordinary inserts; killed at
+                         # every point from the first item on
+                         ("batches", SCRIPTED["batches"], False, (), {"from_item": True}),
+                         # a first process stores a long history and exits; the kill hits the process that has
+                         # reloaded it and adds to it; every restarted process rebuilds the pseudonym from the file
+                         ("long-history", long_history(LONG_CHAIN), False,
+                          ({"items": list(range(LONG_CHAIN)), "kill": None},),
+                          {"from_item": True, "sample": 2 if quick else 60, "rng": random.Random(seed + 19)})]
                 if tier == "thorough":
                     # first process stores two items and exits; the kill hits the SECOND process
-                    plans.append(("second-run:fork", SCRIPTED["fork"], False, ({"items": [0, 1], "kill": None},)))
-                    plans.append(("fork", SCRIPTED["fork"], False, ()))
-                    plans.append(("legacy:fork", SCRIPTED["fork"], True, ({"items": [0], "kill": None},)))
+                    plans.append(("second-run:fork", SCRIPTED["fork"], False, ({"items": [0, 1], "kill": None},), {}))
+                    plans.append(("fork", SCRIPTED["fork"], False, (), {}))
+                    plans.append(("legacy:fork", SCRIPTED["fork"], True, ({"items": [0], "kill": None},), {}))
+                    plans.append(("batches-2", SCRIPTED["batches-2"], False, (), {"from_item": True}))
+                    plans.append(("legacy:batches", SCRIPTED["batches"], True, (), {}))
                     for gi in range(8):
                         gseed = seed * 1000 + gi
                         n = 5 + gi % 5
                         plans.append(("generated-%d-%d" % (gseed, n), generated_items(random.Random(gseed), n),
-                                      False, ()))
+                                      False, (), {}))
                 npoints = {}
-                for name, items, legacy, prefix in plans:
-                    sc = scenario(name, items, legacy, prefix)
-                    traces, n = enumerate_single(pool, base, sc)
-                    npoints[name] = n
-                    batches.setdefault("legacy" if legacy else "fresh", []).extend(traces)
+                # the workloads are enumerated side by side (each: one full run, then its kill points on the pool)
+                with concurrent.futures.ThreadPoolExecutor(max_workers=4) as planpool:
+                    jobs = [(name, legacy, planpool.submit(enumerate_single, pool, base,
+                                                           scenario(name, items, legacy, prefix), **opts))
+                            for name, items, legacy, prefix, opts in plans]
+                    for name, legacy, job in jobs:
+                        traces, n = job.result()
+                        npoints[name] = n
+                        batches.setdefault("legacy" if legacy else "fresh", []).extend(traces)
                 # two kills: the restarted process (which re-inserts what was not acknowledged) is killed as well
                 name, items = "all-kinds", SCRIPTED["all-kinds"]
-                n1 = npoints.get(name, 0)
+                n1 = npoints.get(name, 0)     # (the two workloads below wait for the enumeration above)
                 pairs = [(k1, k2) for k1 in range(1, n1 + 1) for k2 in range(1, n1 + 12)]
                 pairs = rng.sample(pairs, min(len(pairs), 40 if tier == "quick" else 1500))
                 scs = []
@@ -681,7 +815,7 @@ def run(tier, seed, replay=None):
         side = []
         if not replay:
             # trace-level negative controls and the (informational) program-layer conformance run alongside
-            controls_job = tp.submit(trace_controls, list(reversed(good)))
+            controls_job = tp.submit(trace_controls, sorted(good, key=lambda t: len(t["events"])))
             side.append(tp.submit(strict_conformance, ctx, [t for t in all_traces if not t["legacy"]][:300], "fresh"))
             if batches.get("legacy"):
                 side.append(tp.submit(strict_conformance, ctx, batches["legacy"][:300], "legacy"))
